@@ -158,6 +158,33 @@ def compileChars (uw : Char → Bool) (s : List Char) : Except Exc Forest :=
   | none => .error .valueError
   | some c => compileExpr (toExpr c true)
 
+/-- An item of the expression argument of `HasTraits.observe` / `@observe` /
+`Property(observe=…)`: a mini-language text or an ObserverExpression
+("If this is a list, each item must be a string or an ObserverExpression",
+has_traits.py:350-352, 2313-2315). -/
+inductive Item where
+  | text (s : List Char)
+  | expr (e : Expr)
+
+/-- has_traits.py:369-371: `compile_str(expr) if isinstance(expr, str) else compile_expr(expr)` -/
+def compileItem (uw : Char → Bool) : Item → Except Exc Forest
+  | .text s => compileChars uw s
+  | .expr e => compileExpr e
+
+/-- `_compile_expression(expression)` for a list (has_traits.py:342-373; a
+non-list argument is the one-item list): every item is compiled on its own, in
+order, and the graph lists are concatenated; the first item that does not
+compile raises. -/
+def compileItems (uw : Char → Bool) : List Item → Except Exc Forest
+  | [] => .ok .nil
+  | it :: rest =>
+    match compileItem uw it with
+    | .error e => .error e
+    | .ok g =>
+      match compileItems uw rest with
+      | .error e => .error e
+      | .ok gs => .ok (g ++ gs)
+
 /-- What `create` returns (it never fails): the graphs with de-duplicated children. -/
 def createD : Expr → Forest → Forest
   | .single o, branches => .cons o branches.dedupe .nil
